@@ -1,2 +1,5 @@
 import HpoProofs.Group
 import HpoProofs.TermId
+import HpoProofs.Arena
+import HpoProofs.Closure
+import HpoProofs.BuilderInv
